@@ -18,6 +18,9 @@ func init() {
 			sc := newScriptConn([][]byte{append([]byte{}, buf...)})
 			conn := standard.NewConnForVerif(sc, 4096)
 			var h protocol.ResponseHeader
+			if len(in) > 1 && in.N(1) == 1 {
+				h.DisableNormalizing() // names kept as sent; framing is decided case-insensitively either way
+			}
 			err := resp.ReadHeader(&h, conn)
 			impl := "ERR"
 			if err == nil {
@@ -76,7 +79,11 @@ func init() {
 						b[k] = alpha[t.R.Intn(len(alpha))]
 					}
 				}
-				t.Do(In{H(b)}, true)
+				if t.R.Intn(3) == 0 {
+					t.Do(In{H(b), Nn(1)}, true)
+				} else {
+					t.Do(In{H(b)}, true)
+				}
 			}
 		}})
 }
